@@ -178,7 +178,7 @@ class C05(Check):
 
     trusted_base = ["model Model/Revent.lean hand-written from EventMixin (raiseEvent*, addListener*, removeListener, autoBindEvents, "
                     "CallProxy, lazy _eventMixin_init, event.halt) as repaired by D01 and D28; tied to the code by this correspondence run",
-                    "harness: scripted handlers, event ids normalised by the value of revent._nextEventID at case start, "
+                    "harness: scripted handlers, event ids normalised by the id a probe subscription gets at case start, "
                     "exception classes mapped to {revent, key, other}"]
     assumptions = ["Event._invoke is not overridden (event objects may be raised again and forwarded: event.halt / event.source are shared)",
                    "reading of the one-shot clauses (see level_text): 'one-shot handlers are never invoked again' = the code of a one-shot "
@@ -378,7 +378,10 @@ class C05(Check):
             else:
                 C_ = classes[ck]                                                # two instances of ONE class: no state may be shared
             srcs.append(C_())
-        base = rv._nextEventID
+        # listener ids are compared relative to the next id the library will hand out; found by subscribing once to a throw-away source
+        # (not by reading a private counter: a library that keeps its counter elsewhere is the same library)
+        _probe = type("ProbeSrc", (rv.EventMixin,), {"_eventMixin_events": True})()
+        base = _probe.addListener(rv.Event, lambda e: None)[1]
         self._reg.clear()
         reg, rootsrc, cur_events, srcchecks = self._reg, {}, [], []
         scripts = {h: l for h, l in case["scripts"]}
